@@ -12,6 +12,7 @@ import LouProofs.BackOK
 import LouProofs.C02
 import LouProofs.C04Back
 import LouModel.Engine
+import LouProofs.FwdCOK
 
 namespace Lou.ModelEngine
 open Lou Lou.Gen Lou.Drv Lou.Contract
@@ -137,11 +138,55 @@ end Lou.ModelEngine
 namespace Lou.ModelEngine
 open Lou Lou.Gen Lou.Drv Lou.Contract
 
+/-- the engine with the context main pass satisfies the same contract -/
+theorem modelEngineC_ok (t : Table) : EngineOKFwd (Engine.modelEngineC t) ∧ EngineNonNeg (Engine.modelEngineC t) := by
+  constructor
+  · intro ini hist pin
+    unfold Engine.modelEngineC
+    split
+    · cases hr : FwdC.translateC t ini.mode pin.chars pin.maxlen pin.cpos pin.cstat with
+      | unsupported => exact ⟨Nat.zero_le _, rfl, Nat.zero_le _, by simp⟩
+      | fuel => exact ⟨Nat.zero_le _, rfl, Nat.zero_le _, by simp⟩
+      | done r =>
+        have h := FwdCOK.translateC_contract t ini.mode pin.chars pin.maxlen pin.cpos pin.cstat r hr
+        exact ⟨h.1, h.2.1, h.2.2.1, fun p hp => by have := h.2.2.2 p hp; omega⟩
+    · have h := C06Pass.fwdStage_contract t pin.passNo pin.chars pin.maxlen
+      cases hs : Pass.fwdStage t pin.passNo pin.chars pin.maxlen with
+      | unsupported => exact ⟨Nat.zero_le _, rfl, Nat.zero_le _, by simp⟩
+      | fuel => exact ⟨Nat.zero_le _, rfl, Nat.zero_le _, by simp⟩
+      | done o =>
+        rw [hs] at h
+        obtain ⟨h1, h2, h3, h4⟩ := h
+        exact ⟨h1, h2, h3, fun p hp => by have := h4 p hp; omega⟩
+  · intro ini hist pin p hp
+    unfold Engine.modelEngineC at hp
+    split at hp
+    · cases hr : FwdC.translateC t ini.mode pin.chars pin.maxlen pin.cpos pin.cstat with
+      | unsupported => simp [hr] at hp
+      | fuel => simp [hr] at hp
+      | done r =>
+        rw [hr] at hp
+        exact ((FwdCOK.translateC_contract t ini.mode pin.chars pin.maxlen pin.cpos pin.cstat r hr).2.2.2 p hp).1
+    · have h := C06Pass.fwdStage_contract t pin.passNo pin.chars pin.maxlen
+      cases hs : Pass.fwdStage t pin.passNo pin.chars pin.maxlen with
+      | unsupported => simp [hs] at hp
+      | fuel => simp [hs] at hp
+      | done o =>
+        rw [hs] at h hp
+        exact (h.2.2.2 p hp).1
+
+/-- the engine `callFwd` runs satisfies the contract, whichever of the two it is -/
+theorem engineFor_ok (t : Table) : EngineOKFwd (Engine.engineFor t) ∧ EngineNonNeg (Engine.engineFor t) := by
+  unfold Engine.engineFor
+  split
+  · exact modelEngineC_ok t
+  · exact modelEngine_ok t
+
 /-- what the protocol operation MCALL prints IS the driver model run with the modelled engines: the theorems of this
-    file (and of CurBlind) are about exactly the function the whole-call differential compares with the code -/
+    file are about exactly the function the whole-call differential compares with the code -/
 theorem callFwd_eq (t : Table) (disp : Nat → Nat) (a : Args) (r : Result) (hs : List (PassIn × PassOut))
     (h : Engine.callFwd t disp a = .ok (r, hs)) :
-    r = fwd (some (Engine.tableInfo t)) disp (modelEngine t) a ∧ hs = (fwdRun (Engine.tableInfo t) (modelEngine t) a).hist := by
+    r = fwd (some (Engine.tableInfo t)) disp (Engine.engineFor t) a ∧ hs = (fwdRun (Engine.tableInfo t) (Engine.engineFor t) a).hist := by
   unfold Engine.callFwd at h
   split at h
   · cases h
@@ -150,7 +195,9 @@ theorem callFwd_eq (t : Table) (disp : Nat → Nat) (a : Args) (r : Result) (hs 
     · simp only [] at h
       split at h
       · cases h
-      · cases h; exact ⟨rfl, rfl⟩
+      · split at h
+        · cases h
+        · cases h; exact ⟨rfl, rfl⟩
 
 theorem callBack_eq (t : Table) (dotsFor : Nat → Nat) (a : Args) (r : Result) (hs : List (PassIn × PassOut))
     (h : Engine.callBack t dotsFor a = .ok (r, hs)) :
@@ -169,6 +216,11 @@ theorem whole_call_fwd_lengths (t : Table) (disp : Nat → Nat) (a : Args) (r : 
     (h : Engine.callFwd t disp a = .ok (r, hs)) (hret : r.ret = 1) :
     -1 ≤ r.inlen ∧ r.inlen ≤ a.inbuf.length ∧ 0 ≤ r.outlen ∧ r.outlen ≤ a.outlen := by
   obtain ⟨rfl, -⟩ := callFwd_eq t disp a r hs h
-  exact model_fwd_lengths (Engine.tableInfo t) disp t a hret
+  exact C04.fwd_lengths (Engine.tableInfo t) disp (Engine.engineFor t) a (engineFor_ok t).1 hret
+
+/-- **whole_call_fwd_safe**: every access the driver performs in a call the whole-call model covers is inside its buffer -/
+theorem whole_call_fwd_safe (caps : Caps) (t : Table) (a : Args) (hv : C01.ArgsValid a) (hc : C01.CapsOK caps a) :
+    ∀ x ∈ fwdAccesses caps (Engine.tableInfo t) (Engine.engineFor t) a, x.ok = true :=
+  C01.driver_fwd_safe caps (Engine.tableInfo t) (Engine.engineFor t) a (engineFor_ok t).1 hv hc
 
 end Lou.ModelEngine
